@@ -265,6 +265,44 @@ func (c *codegen) emitStoreSelectorExpr(n *ast.SelectorExpr) {
 	c.emitStoreStructField(path[0]) // store the field
 }
 
+// emitLoadIndexed emits code to load an element of the index expression
+// (container[index]). Assumes the container and the index are on the stack.
+func (c *codegen) emitLoadIndexed(n *ast.IndexExpr) {
+	typ := c.typeOf(n.X)
+	if typ == nil {
+		emit.Opcodes(c.prog.BinWriter, opcode.PICKITEM)
+		return
+	}
+	mapType, ok := typ.Underlying().(*types.Map)
+	if !ok {
+		emit.Opcodes(c.prog.BinWriter, opcode.PICKITEM) // just pickitem here
+		return
+	}
+	// Indexing a map with a missing key yields the zero value of the element type.
+	lHasKey := c.newLabel()
+	lEnd := c.newLabel()
+	emit.Opcodes(c.prog.BinWriter, opcode.OVER, opcode.OVER, opcode.HASKEY)
+	emit.Jmp(c.prog.BinWriter, opcode.JMPIFL, lHasKey)
+	emit.Opcodes(c.prog.BinWriter, opcode.DROP, opcode.DROP)
+	c.emitDefault(mapType.Elem())
+	emit.Jmp(c.prog.BinWriter, opcode.JMPL, lEnd)
+	c.setLabel(lHasKey)
+	emit.Opcodes(c.prog.BinWriter, opcode.PICKITEM)
+	c.setLabel(lEnd)
+}
+
+// emitUpdateIndexExpr emits code for `container[index] op= value` and
+// `container[index]++`: the container and the index are evaluated once, update
+// turns the current value of the element on top of the stack into the new one.
+func (c *codegen) emitUpdateIndexExpr(n *ast.IndexExpr, update func()) {
+	ast.Walk(c, n.X)
+	ast.Walk(c, n.Index)
+	emit.Opcodes(c.prog.BinWriter, opcode.OVER, opcode.OVER)
+	c.emitLoadIndexed(n)
+	update()
+	emit.Opcodes(c.prog.BinWriter, opcode.SETITEM)
+}
+
 // emitStoreIndexExpr emits code to store into an index expression (container[index]).
 // Assumes the RHS is already on the stack before calling.
 func (c *codegen) emitStoreIndexExpr(n *ast.IndexExpr) {
@@ -842,6 +880,15 @@ func (c *codegen) Visit(node ast.Node) ast.Visitor {
 		if isAssignOp {
 			c.saveExprSequencePoint(n.Rhs[0])
 			// RHS can contain exactly one expression, thus there is no need to iterate.
+			if idx, ok := n.Lhs[0].(*ast.IndexExpr); ok {
+				c.emitUpdateIndexExpr(idx, func() {
+					ast.Walk(c, n.Rhs[0])
+					c.emitToken(n.Tok, c.typeOf(n.Rhs[0]))
+					// The sequence point includes an assignment sign.
+					c.saveSequencePoint(n.Lhs[0].Pos(), n.Rhs[0].Pos())
+				})
+				return nil
+			}
 			ast.Walk(c, n.Lhs[0])
 			ast.Walk(c, n.Rhs[0])
 			c.emitToken(n.Tok, c.typeOf(n.Rhs[0]))
@@ -1444,6 +1491,12 @@ func (c *codegen) Visit(node ast.Node) ast.Visitor {
 		return nil
 
 	case *ast.IncDecStmt:
+		if idx, ok := n.X.(*ast.IndexExpr); ok {
+			c.emitUpdateIndexExpr(idx, func() {
+				c.emitToken(n.Tok, c.typeOf(n.X))
+			})
+			return nil
+		}
 		ast.Walk(c, n.X)
 		c.emitToken(n.Tok, c.typeOf(n.X))
 
@@ -1455,27 +1508,7 @@ func (c *codegen) Visit(node ast.Node) ast.Visitor {
 		// This will load local whatever X is.
 		ast.Walk(c, n.X)
 		ast.Walk(c, n.Index)
-		typ := c.typeOf(n.X)
-		if typ == nil {
-			emit.Opcodes(c.prog.BinWriter, opcode.PICKITEM)
-			return nil
-		}
-		mapType, ok := typ.Underlying().(*types.Map)
-		if !ok {
-			emit.Opcodes(c.prog.BinWriter, opcode.PICKITEM) // just pickitem here
-			return nil
-		}
-		// Indexing a map with a missing key yields the zero value of the element type.
-		lHasKey := c.newLabel()
-		lEnd := c.newLabel()
-		emit.Opcodes(c.prog.BinWriter, opcode.OVER, opcode.OVER, opcode.HASKEY)
-		emit.Jmp(c.prog.BinWriter, opcode.JMPIFL, lHasKey)
-		emit.Opcodes(c.prog.BinWriter, opcode.DROP, opcode.DROP)
-		c.emitDefault(mapType.Elem())
-		emit.Jmp(c.prog.BinWriter, opcode.JMPL, lEnd)
-		c.setLabel(lHasKey)
-		emit.Opcodes(c.prog.BinWriter, opcode.PICKITEM)
-		c.setLabel(lEnd)
+		c.emitLoadIndexed(n)
 
 		return nil
 
